@@ -207,7 +207,7 @@ func newPair(zi *zoneInfo, spec string) (*pair, error) {
 		return nil, fmt.Errorf("kit refuses menu expression %q: %v", full, err)
 	}
 	p := &pair{zi: zi, spec: spec, kit: k, ref: r.Sched}
-	p.sc = &cronref.Scanner{Z: zi.z, S: &p.ref}
+	p.sc = &cronref.Scanner{Z: zi.z, S: &p.ref, Fast: true}
 	return p, nil
 }
 
